@@ -147,7 +147,13 @@ def run(ctx):
                              match(pat("len(C[$c])"), sc_cs.resolve(n.value)) is not None and txt(match(pat("ord[$c]"), n.targets[0])["c"]) == txt(match(pat("len(C[$c])"), sc_cs.resolve(n.value))["c"])
                              for n in astx.walk_fn(cs.node))
                     p3 = _lockstep(ge)
-                    if p1 and p2 and p3 and p_idx:
+                    other_filter = [n for n in ast.walk(wl) if isinstance(n, ast.ListComp) and len(n.generators) == 1 and len(n.generators[0].ifs) == 1
+                                    and isinstance(n.generators[0].ifs[0], ast.Compare) and txt(n.generators[0].ifs[0].left) == f"ord[{txt(n.generators[0].target)}]"
+                                    and txt(n.generators[0].ifs[0].comparators[0]) == N and not isinstance(n.generators[0].ifs[0].ops[0], ast.Eq)]
+                    if other_filter and p_idx:
+                        o.violated(ge, other_filter[0], f"candidates are filtered by `{txt(other_filter[0].generators[0].ifs[0])}` but only the first `{N}` vertices of the chosen clique "
+                                                        f"`{cli}` have their pairs removed: a chosen clique larger than `{N}` keeps edges in the working graph, which are covered a second time")
+                    elif p1 and p2 and p3 and p_idx:
                         o.holds(ge, il, f"removal bound `{N}` = len({cli}): candidates are filtered by ord[idx] == {N}, ord[c] = len(C[c]), and C/ord/r are filtered in lock-step")
                     elif not p2:
                         o.violated(cs, cs.node, f"the removal bound `{N}` relies on ord[c] = len(C[c]), which compute_scores no longer guarantees")
